@@ -58,6 +58,7 @@ func (p Parser) ParseFile(fileName string) {
 	f, err := os.Open(fileName)
 	if err != nil {
 		p.Errors <- NewErrorIO(err, fileName)
+		p.Done <- true
 		return
 	}
 	defer f.Close()
@@ -165,7 +166,7 @@ func ParseStreamCallback(reader io.Reader, c Config, callback ParseCallback) err
 func (p Parser) ParseStream(reader io.Reader) {
 	if err := ParseStreamCallback(reader, p.config, func(n *shared.ParserNode, err error) (stop bool, cbError error) {
 		if err != nil {
-			p.Errors <- err
+			// returned by ParseStreamCallback and sent once below
 			return true, err
 		}
 		p.Nodes <- n
